@@ -18,10 +18,10 @@ import (
 // String terms vs. ~1 ms abstracted.
 
 var (
-	absMu     sync.Mutex
-	absLits   = map[string]int{`""`: 0}
-	absReg    = map[string]int{}
-	absCache  sync.Map // term -> abstracted term
+	absMu    sync.Mutex
+	absLits  = map[string]int{`""`: 0}
+	absReg   = map[string]int{}
+	absCache sync.Map // term -> abstracted term
 )
 
 const absPrelude = `(declare-fun sconcat (Int Int) Int)
